@@ -164,6 +164,8 @@ def run(chk):
         n = chk.n(1200, 24000)
         for it in range(n):
             k = rng.choice([4, 4, 5, 5, 6, 7, 8, chk.n(9, 12)])
+            if it % 40 == 7:
+                k = rng.choice([24, 32, 40])           # family-sized trees: Newick texts of several hundred characters
             ta = rand_tree(rng, range(k))
             r = rng.random()
             if r < 0.35:
@@ -185,6 +187,7 @@ def run(chk):
         # corpus: the recorded input of the known finding 'newick-blank-in-name' is replayed first on every run
         cases.insert(0, (4, [0, [1, 2], 3], [0, 3, [1, 2]], False, 'corpus:newick-blank-in-name'))
         first_case = [True]
+        text_samples = []
         for k, ta, tb, lengths, sname in cases:
             names = {i: 'T%d' % i if rng.random() < 0.8 else 'Lg_%d' % i for i in range(k)}
             if first_case[0] or rng.random() < 0.25:
@@ -201,6 +204,9 @@ def run(chk):
             try:
                 A, B = Tree(sa), Tree(sb)
                 strA, strB = str(A), str(B)
+                if len(text_samples) < 400:
+                    text_samples.append(strA)
+                    text_samples.append(sa)
             except Exception as ex:  # noqa
                 fails.append((sa, sb, 'Tree() raised %s' % type(ex).__name__))
                 continue
@@ -315,6 +321,11 @@ def run(chk):
     chk.obligation('correspondence:get_bipartition == model scanner + bipartition', 'correspondence', not bad_bip,
                    'mismatches=%d' % len(bad_bip))
     chk.obligation('correspondence:grf/rf == model formulas', 'correspondence', not bad_dist, 'mismatches=%d' % len(bad_dist))
+    # --- the text level: the writer's quoting of names and the tokeniser, against the Lean model (theorems C15_text_roundtrip, label_roundtrip) ---
+    bad_text, ntext = newick_text_checks(chk, fails, text_samples)
+    chk.obligation('correspondence:Newick text level - getNewick name quoting == Lean escapeName, _Tokeniser.tokens == Lean tokenise (written trees, names with quotes / blanks / underscores / apostrophes, synthetic text with comments, white space, unbalanced quotes)',
+                   'correspondence', not bad_text, 'texts and names=%d mismatches=%d %s' % (ntext, len(bad_text), str(bad_text[0])[:300] if bad_text else ''))
+    bad_nwk = bad_nwk + bad_text
     chk.obligation('correspondence:Newick writer and parser == Lean print / parse (token level: lengths, quotes and `;` removed by the tokenizer)',
                    'correspondence', not bad_nwk, 'strings=%d mismatches=%d %s' % (len(nwk_lines), len(bad_nwk), str(bad_nwk[0])[:200] if bad_nwk else ''))
     known_keys = set(k['key'] for k in chk.known)
@@ -335,6 +346,79 @@ def run(chk):
         b = (bad_elems or bad_bip or bad_dist or bad_nwk)[0]
         chk.violation('model and code disagree on tree scanning/distances; no failing input found',
                       {'kind': 'trees-model', 'detail': b, 'broken': 'correspondence'}, found_input=False)
+
+
+def newick_text_checks(chk, fails, written):
+    """real writer / tokeniser against the Lean text-level model; appends property failures (round trip of a written tree) to `fails`"""
+    from lingpy.thirdparty.cogent.newick import _Tokeniser, TreeParseError
+    from lingpy.thirdparty.cogent import LoadTree
+    rng = chk.rng
+    drv = common.Driver()
+    bad = []
+
+    def cps(x):
+        return ' '.join(str(ord(ch)) for ch in x)
+
+    def real_tokens(text, um):
+        try:
+            return [t for t in _Tokeniser(text, underscore_unmunge=um).tokens()]
+        except TreeParseError:
+            return 'ERR'
+
+    def model_tokens(text, um):
+        o = drv.ask('nwktext|%d|%s' % (1 if um else 0, cps(text)))
+        if o == 'ERR':
+            return 'ERR'
+        out = []
+        for it in o[2:].split():
+            if it == 'E':
+                out.append(None)
+            elif it[0] == 'S':
+                out.append(chr(int(it[1:])))
+            else:
+                out.append(''.join(chr(int(x)) for x in it[1:].split(',') if x))
+        return out
+    texts = list(written)
+    alpha = ["a", "b", "X", " ", " ", "_", "'", "'", '"', "(", ")", ",", ":", ";", "[", "]", "\t", "\n", "1", ".", "e", "-"]
+    for _ in range(chk.n(400, 12000)):
+        texts.append(''.join(rng.choice(alpha) for _ in range(rng.randrange(1, 14))))
+    names = []
+    name_alpha = ["a", "b", "X", " ", "_", "'", '"', "(", ")", ",", ":", ";", "[", "]", "é", "-", "."]
+    for _ in range(chk.n(300, 8000)):
+        names.append(''.join(rng.choice(name_alpha) for _ in range(rng.randrange(1, 7))))
+    names += ["Xi'an", "Old Norse", "a_b", "'x'", "Are'", "a'b", "''", 'say "x"']
+    for text in texts:
+        um = rng.random() < 0.3
+        chk.evaluations += 1
+        r, m = real_tokens(text, um), model_tokens(text, um)
+        if r != m:
+            bad.append(('tokens', text, um, r, m))
+    for nm in names:
+        chk.evaluations += 1
+        t = LoadTree(treestring='((a,b),(c,d));')
+        t.getNodeMatchingName('a').Name = nm
+        s = t.getNewick()
+        written_name = s[2:s.index(',b)')]
+        o = drv.ask('nwkname|' + cps(nm))
+        model_name = ''.join(chr(int(x)) for x in o[2:].split(',') if x)
+        if written_name != model_name:
+            bad.append(('name', nm, written_name, model_name))
+    drv.close()
+    # the property on names the theorem excludes (hypothesis NameOk: not starting with an apostrophe): the recorded finding is replayed first
+    for nm in ["'Are'are"] + [n for n in names if n.startswith("'") and not n.endswith("'") and '\n' not in n][:3]:
+        t = LoadTree(treestring='((a,b),(c,d));')
+        t.getNodeMatchingName('a').Name = nm
+        s = t.getNewick()
+        try:
+            back = LoadTree(treestring=s).getTipNames()
+            ok = sorted(back) == sorted([nm, 'b', 'c', 'd'])
+            why = 'the written tree %r is read with the leaves %r' % (s, back)
+        except Exception as ex:  # noqa
+            ok, why = False, 'the written tree %r does not parse: %s: %s' % (s, type(ex).__name__, str(ex)[:80])
+        if not ok:
+            fails.append(('((a,b),(c,d)); with the leaf a renamed to %r' % nm, s,
+                          'a taxon name that starts with an apostrophe is not read back: ' + why, 'newick-name-leading-apostrophe'))
+    return bad, len(texts) + len(names)
 
 
 def replay(chk, path):
